@@ -244,3 +244,18 @@ def format_twins(structure, altloc_seed=None):
     a = read_text(emit_pdb(rows), ".pdb")
     b = read_text(emit_cif(rows), ".cif")
     return a, b
+
+
+def text_variant(text, kind, fmt):
+    """The same records as other programs and editors leave them (kind 0 = unchanged): Windows line endings, trailing
+    blanks stripped (PDB lines shorter than 80 columns), no final newline, tabs between mmCIF values."""
+    lines = text.splitlines()
+    if kind == 1:
+        return "\r\n".join(lines) + "\r\n"
+    if kind == 2:
+        return "\n".join(l.rstrip() for l in lines) + "\n"
+    if kind == 3:
+        return "\n".join(lines)
+    if kind == 4 and fmt == "cif":
+        return "\n".join(l.replace(" ", "\t") if l.startswith(("ATOM", "HETATM")) and "'" not in l and '"' not in l else l for l in lines) + "\n"
+    return text
